@@ -72,6 +72,7 @@ type ReplayParam struct {
 
 // Engine holds the loaded program and all contracts.
 type Engine struct {
+	FuncBaseline map[string]bool // canonical names of the functions of the committed baseline (functions_baseline.json)
 	Prog         *ssa.Program
 	Pkgs         map[string]*ssa.Package // by short name
 	Contracts    map[string]*UnitSpec
@@ -143,6 +144,13 @@ type Frame struct {
 	lastCallResult *Val
 	pendingRet     []Val // values about to be returned (visible at "return" anchors)
 	beforeArgs     map[string]TV
+	// a function that did not exist in the committed baseline (an extracted helper) and has no contract is verified as part
+	// of its caller: its call sites are numbered in the caller's sequence (at the position of the call), its anchors carry
+	// the caller's prefix, and names it does not know are looked up in the caller at the call site
+	spliced     bool
+	parent      *Frame
+	parentBlock *ssa.BasicBlock
+	parentIdx   int
 }
 
 type retState struct {
@@ -314,6 +322,7 @@ func (f *Frame) numberCalls() {
 	}
 	var sites []site
 	seq := 0
+	splicedSeen := map[*ssa.Function]bool{}
 	for _, b := range f.fn.Blocks {
 		last := token.NoPos
 		for _, ins := range b.Instrs {
@@ -338,6 +347,40 @@ func (f *Frame) numberCalls() {
 			}
 			seq++
 			sites = append(sites, site{ins, cc, p, seq})
+			// call sites of a spliced helper take part in this function's numbering, at the position of the call
+			if h := f.u.splicedHelper(cc, f.fn); h != nil && !splicedSeen[h] {
+				splicedSeen[h] = true
+				var hs []site
+				hseq := 0
+				for _, hb := range h.Blocks {
+					for _, hi := range hb.Instrs {
+						var hc *ssa.CallCommon
+						switch c := hi.(type) {
+						case *ssa.Call:
+							hc = c.Common()
+						case *ssa.Defer:
+							hc = c.Common()
+						case *ssa.Go:
+							hc = c.Common()
+						}
+						if hc == nil {
+							continue
+						}
+						hseq++
+						hs = append(hs, site{hi, hc, hi.Pos(), hseq})
+					}
+				}
+				sort.SliceStable(hs, func(i, j int) bool {
+					if hs[i].pos != hs[j].pos {
+						return hs[i].pos < hs[j].pos
+					}
+					return hs[i].seq < hs[j].seq
+				})
+				for _, x := range hs {
+					seq++
+					sites = append(sites, site{x.ins, x.cc, p, seq})
+				}
+			}
 		}
 	}
 	// anchors are numbered in source order (not block order), so that "call X#2" is the second X in the text
@@ -353,6 +396,30 @@ func (f *Frame) numberCalls() {
 		counts[n]++
 		f.callOrd[s.ins] = fmt.Sprintf("call %s#%d", n, counts[n])
 	}
+}
+
+// splicedHelper: the callee of cc when it is a function of the repository that is not in the committed baseline of
+// functions (functions_baseline.json), has no contract, has a body and is not the caller itself; nil otherwise. (When the
+// caller calls it several times, its call sites are numbered at the first call.)
+func (u *Unit) splicedHelper(cc *ssa.CallCommon, caller *ssa.Function) *ssa.Function {
+	if u == nil || u.eng == nil || len(u.eng.FuncBaseline) == 0 {
+		return nil
+	}
+	h := cc.StaticCallee()
+	if h == nil || h == caller || len(h.Blocks) == 0 || h.Parent() != nil || h.Pkg == nil {
+		return nil
+	}
+	name := canonFn(h)
+	if u.eng.FuncBaseline[name] {
+		return nil
+	}
+	if _, ok := u.eng.Funcs[name]; !ok {
+		return nil // not a function of the loaded repository packages
+	}
+	if _, has := u.eng.contractFor(name, u.pkgName()); has {
+		return nil
+	}
+	return h
 }
 
 // ---------------------------------------------------------------------------
